@@ -58,18 +58,18 @@ func loadLedger(path string) Ledger {
 
 // CheckReport is what one property check found.
 type CheckReport struct {
-	Prop       string
-	Funcs      []*FuncResult
-	Obls       []*Obligation
-	Covers     []*Obligation
-	Failed     []*Obligation
-	Vacuous    []*Obligation
-	Errors     []string // functions that could not be brought under the generator
-	Missing    []string // ledger obligations not generated
-	Known      []string // KNOWN-FINDING lines
-	SolverMS   int64
-	ByBackend  map[string]int
-	Lemmas     []*Obligation
+	Prop      string
+	Funcs     []*FuncResult
+	Obls      []*Obligation
+	Covers    []*Obligation
+	Failed    []*Obligation
+	Vacuous   []*Obligation
+	Errors    []string // functions that could not be brought under the generator
+	Missing   []string // ledger obligations not generated
+	Known     []string // KNOWN-FINDING lines
+	SolverMS  int64
+	ByBackend map[string]int
+	Lemmas    []*Obligation
 }
 
 // rootsFor: functions whose contract has a clause tagged with prop.
@@ -146,6 +146,8 @@ func (e *Engine) RunCheck(prop string, timeoutS int, thorough bool, known []Know
 	rep.Obls = append(rep.Obls, rep.Lemmas...)
 	all := append(append([]*Obligation{}, rep.Obls...), rep.Covers...)
 	Discharge(all, timeoutS, 10, thorough)
+	// lemmas about the spec functions themselves that need induction: Lean 4 / Mathlib files
+	rep.Obls = append(rep.Obls, leanLemmas(prop)...)
 	for _, o := range rep.Obls {
 		rep.SolverMS += o.Millis
 		if o.Status == "unsat" {
@@ -203,6 +205,7 @@ func cmdCheck(args []string) {
 	if s := os.Getenv("VERIF_SEED"); s != "" {
 		seed, _ = strconv.Atoi(s)
 	}
+	verifRoot = *verif
 	known := loadKnown(filepath.Join(*verif, "known-findings.json"))
 	ledger := loadLedger(filepath.Join(*verif, "baseline", "obligations.json"))
 	e, err := Load(*repo, nil)
@@ -386,12 +389,17 @@ func writeEvidence(verif string, e *Engine, rep *CheckReport, tier string, seed 
 	for k, x := range extra {
 		cov[k] = x
 	}
-	var assumptions []string
+	assumptions := []string{}
 	for n := range notes {
 		assumptions = append(assumptions, n)
 	}
 	sort.Strings(assumptions)
 	assumptions = append(assumptions, propAssumptions[rep.Prop]...)
+	for _, t := range tb {
+		if strings.HasPrefix(t, "assumed contract") || strings.HasPrefix(t, "arithmetic:") || strings.HasPrefix(t, "effect-free") || strings.HasPrefix(t, "Kubernetes objects") {
+			assumptions = append(assumptions, t)
+		}
+	}
 	level := "proof"
 	if len(rep.Obls) == 0 {
 		level = "other"
@@ -597,4 +605,35 @@ func cmdSelftest(args []string) {
 	if bad > 0 {
 		os.Exit(1)
 	}
+}
+
+var verifRoot = "/verif"
+
+// leanLemmas checks /verif/lemmas/<prop>*.lean with the installed Lean (no sorry, no new axioms, no output).
+func leanLemmas(prop string) []*Obligation {
+	files, _ := filepath.Glob(filepath.Join(verifRoot, "lemmas", prop+"*.lean"))
+	var out []*Obligation
+	for _, f := range files {
+		o := &Obligation{Name: "lemma/lean:" + strings.TrimSuffix(filepath.Base(f), ".lean"), Kind: "lemma", Pos: f, Src: "Lean-checked lemma over the contract's spec functions", Backend: "lean-4"}
+		src, _ := os.ReadFile(f)
+		start := time.Now()
+		if strings.Contains(string(src), "sorry") || strings.Contains(string(src), "\naxiom ") || strings.Contains(string(src), "native_decide") {
+			o.Status, o.Output = "error", "the file contains sorry / axiom / native_decide"
+		} else {
+			cmd := exec.Command("lean", f)
+			cmd.Dir = filepath.Dir(f)
+			b, err := cmd.CombinedOutput()
+			if err == nil && len(strings.TrimSpace(string(b))) == 0 {
+				o.Status = "unsat"
+			} else {
+				o.Status, o.Output = "error", string(b)
+				if err != nil {
+					o.Output += " " + err.Error()
+				}
+			}
+		}
+		o.Millis = time.Since(start).Milliseconds()
+		out = append(out, o)
+	}
+	return out
 }
